@@ -1,0 +1,7 @@
+//go:build verif
+// +build verif
+
+// Contracts for the verification machinery in /verif (comment-only; compiled only with -tags verif).
+package visitor
+
+//@ frame null: roots=(*Null).* allow=nothing props=C13,C11
